@@ -236,6 +236,14 @@ fn long_oracle(c: &LongCase, acc: &mut Acc) -> CaseResult {
             let plen = [5usize, 0, 33, 1, 700][(j + d) % 5];
             let payload = expand(c.seed, (d * 100_000 + j) as u64, plen);
             let (w, r) = if d == 0 { (&mut ti, &mut tr) } else { (&mut tr, &mut ti) };
+            // now and then the WRITER's receiving counter is set (glue code that copies a header
+            // field before every read does that, also on the send-only side of a one-way
+            // pattern): the order of what it sends must not change. Only when nothing is in
+            // flight towards the writer, and to the value it already has or - one-way - anything.
+            if j % 37 == 5 {
+                let cur = w.receiving_nonce();
+                w.set_receiving_nonce(if oneway && d == 0 { mix(c.seed, j as u64) % 1000 } else { cur });
+            }
             let m = t_write(w, &payload, plen + 16).map_err(|x| Fail::setup(format!("{name}: write {j}: {}", e(&x))))?;
             let want_rn = r.receiving_nonce();
             // a rejected delivery before some of the genuine ones
